@@ -1,6 +1,7 @@
 import RbV.Model.IndexedFasta
 import RbV.Lemmas.IndexedFasta
 import RbV.Thm.GenSrcIdxFa
+import RbV.Thm.GenSrcIdxFaIter
 /-!
 # C12 — indexed FASTA random access returns exactly the requested slice
 
@@ -377,6 +378,61 @@ theorem fetch_read_source_correct (index : List (Bytes × Idx)) (file seq : Byte
   · rw [fetchByRid_eq_model, (fetch_known_rid index rid start stop hr).1]; rfl
   · rw [read_eq]; exact h
 
+/-! ## `read_into_iter` / `read_iter` translated from the source text (session 6, genleft)
+
+`RbV/Gen/SrcIdxFaIter.lean`; proofs `RbV/Thm/GenSrcIdxFaIter.lean`.  The iterator struct carries the ghost field `buf_cap` =
+the argument of `Vec::with_capacity(..)` (std: `capacity() >= n`). -/
+
+open RbV.Thm.GenSrcIdxFa RbV.Thm.GenSrcIdxFaIter in
+/-- **`read_into_iter`, as written, asks for a positive buffer capacity** whenever there is something to read
+(`min(MAX_FASTA_BUFFER_SIZE, min(bases_left, line_bases)) > 0` for `start < stop`, `line_bases > 0`), and starts the
+iterator in the state genio's theorems assumed: reader after the translated `seek_to`, `bases_left = stop - start`, empty
+buffer, `buf_idx = 0`.  Out-of-range and inverted intervals are the two errors. -/
+theorem read_into_iter_source_capacity_pos (file : Bytes) (idx : Idx) (start stop : Nat) (s : St)
+    (hlb : 0 < idx.lb) (hfit : pos idx start < 2 ^ 64) :
+    (idx.len < stop → ∃ e, Gen.SrcIdxFaIter.readIntoIter (seekOp file) s (toRec idx) start stop = .ok (.error e) ∧
+        (e = oobErr ∨ (stop < start ∧ e = intervalErr))) ∧
+    (stop ≤ idx.len → stop < start →
+      Gen.SrcIdxFaIter.readIntoIter (seekOp file) s (toRec idx) start stop = .ok (.error intervalErr)) ∧
+    (stop ≤ idx.len → start ≤ stop →
+      ∃ it, Gen.SrcIdxFaIter.readIntoIter (seekOp file) s (toRec idx) start stop = .ok (.ok it) ∧
+        it.reader = (seekTo file idx start).1 ∧ it.record = toRec idx ∧ it.bases_left = stop - start ∧
+        it.line_offset = (seekTo file idx start).2 ∧ it.buf = [] ∧ it.buf_idx = 0 ∧ (start < stop → 0 < it.buf_cap)) := by
+  obtain ⟨h1, h2, h3⟩ := readIntoIter_spec file idx start stop s hlb hfit
+  refine ⟨h1, h2, fun a b => ?_⟩
+  obtain ⟨it, hit, hok⟩ := h3 a b
+  exact ⟨it, hit, hok.reader, hok.record, hok.bases, hok.lo, hok.buf, hok.bidx, hok.cap⟩
+
+open RbV.Thm.GenSrcIdxFa RbV.Thm.GenSrcIdxFaIter in
+/-- `read_iter`: `read_into_iter` on what was fetched; the "No sequence fetched" error before any fetch -/
+theorem read_iter_source_dispatch {ρ : Type} (sk : ρ → Nat → Except Rs.IoErr Nat × ρ) (s : ρ)
+    (r : Gen.SrcIdxFa.IndexRecord) (start stop : Nat) :
+    Gen.SrcIdxFaIter.readIter sk s (some r) (some start) (some stop) = Gen.SrcIdxFaIter.readIntoIter sk s r start stop ∧
+    Gen.SrcIdxFaIter.readIter sk s none none none = .ok (.error (toIo .nofetch)) :=
+  ⟨readIter_eq sk s r start stop, readIter_nofetch sk s⟩
+
+open RbV.Thm.GenSrcIdxFa RbV.Thm.GenSrcIdxFaIter in
+/-- **From the translated constructor**: `read_into_iter(idx, start, stop)` as written, then the translated `next` drained
+with the capacity that constructor asked for, yields exactly `seq[start..stop]` and no error item — for every well-formed
+file, every chunk schedule, every interval `start ≤ stop ≤ len` (the empty one included: capacity 0, the iterator ends at
+once).  No capacity hypothesis is left. -/
+theorem read_iter_source_correct (file seq : Bytes) (idx : Idx) (start stop fuel calls : Nat) (sched : Nat → Nat) (s0 : St)
+    (wf : WellFormed file idx seq) (h1 : start ≤ stop) (h2 : stop ≤ idx.len) (hs : ∀ k, 0 < sched k)
+    (h64 : idx.lB < 2 ^ 64) (hstop : stop < 2 ^ 64) (hfit : pos idx start < 2 ^ 64)
+    (hfuel : file.length + 1 < fuel) (hcalls : stop - start + 2 ≤ calls) :
+    ∃ it, Gen.SrcIdxFaIter.readIntoIter (seekOp file) s0 (toRec idx) start stop = .ok (.ok it) ∧
+      drainIt sched it.buf_cap idx fuel calls (it.reader, it.bases_left, it.line_offset, it.buf, it.buf_idx) =
+        .ok (okItems ((seq.drop start).take (stop - start))) := by
+  obtain ⟨it, hit, hok⟩ := (readIntoIter_spec file idx start stop s0 wf.lb_pos hfit).2.2 h2 h1
+  refine ⟨it, hit, ?_⟩
+  rw [hok.reader, hok.bases, hok.lo, hok.buf, hok.bidx]
+  by_cases hlt : start < stop
+  · exact iter_source_correct file seq idx it.buf_cap start stop fuel calls sched wf h1 h2 hs h64 (hok.cap hlt)
+      hstop hfuel hcalls
+  · have he : stop - start = 0 := by omega
+    rw [he, drainIt_empty sched _ idx fuel calls (by omega)]
+    simp [okItems]
+
 /-! ## Non-vacuity: a concrete two-line record, LF and CRLF -/
 
 private def exFile : Bytes := [62, 97, 10, 65, 67, 71, 10, 84, 10]        -- ">a\nACG\nT\n"
@@ -434,5 +490,21 @@ example : ∃ fi a b s', Gen.SrcIdxFa.fetchByRid (toRecs [([97], exIdx)]) none n
       .ok (.ok (), s', [67, 71, 84]) :=
   fetch_read_source_correct [([97], exIdx)] exFile exSeq 0 1 4 (fun _ => 3) _ _ 10 none none none (by decide) exWf
     (by decide) (by decide) (fun _ => by decide) (by decide) (by decide) (by decide)
+
+open RbV.Thm.GenSrcIdxFa RbV.Thm.GenSrcIdxFaIter in
+/-- from the translated `read_into_iter` (dirty reader, interval 1..4): the iterator it builds, drained, gives `C G T` -/
+example : ∃ it, Gen.SrcIdxFaIter.readIntoIter (seekOp exFile) ⟨[1, 2], 1, 5⟩ (toRec exIdx) 1 4 = .ok (.ok it) ∧
+    drainIt (fun k => k + 1) it.buf_cap exIdx 20 10 (it.reader, it.bases_left, it.line_offset, it.buf, it.buf_idx) =
+      .ok [.ok 67, .ok 71, .ok 84] :=
+  read_iter_source_correct exFile exSeq exIdx 1 4 20 10 (fun k => k + 1) _ exWf (by decide) (by decide) (fun _ => by omega)
+    (by decide) (by decide) (by decide) (by decide) (by decide)
+
+open RbV.Thm.GenSrcIdxFa in
+-- the requested capacity, evaluated: min(MAX_FASTA_BUFFER_SIZE, min(3, 3)) = 3; an inverted interval is refused
+example : (match Gen.SrcIdxFaIter.readIntoIter (seekOp exFile) ⟨[], 0, 0⟩ (toRec exIdx) 1 4 with
+    | .ok (.ok it) => it.buf_cap | _ => 0) = 3 := by decide
+open RbV.Thm.GenSrcIdxFa in
+example : (match Gen.SrcIdxFaIter.readIter (seekOp exFile) ⟨[], 0, 0⟩ (some (toRec exIdx)) (some 3) (some 2) with
+    | .ok (.error e) => e == intervalErr | _ => false) = true := by decide
 
 end RbV.Thm.C12
